@@ -60,7 +60,7 @@ def run(ctx):
             for k in range(2):
                 evs2, _, _ = run_harness(ctx, "pub", "TestVerifRender", {"from": e["i"], "count": e["i"] + 1}, timeout=600, allow_fail=True, name="render-repro-%d-%d" % (e["i"], k))
                 again += [x for x in evs2 if x["ev"] == "render"]
-            if len(again) < 2 or not all(x["outcome"] == "timeout" or x["ms"] > 5000 for x in again):
+            if len(again) < 2 or not all(x["outcome"] == "timeout" or x["ms"] > 10000 for x in again):
                 res.extra.setdefault("slow_once_not_reproduced", []).append([e["i"], e["ms"], [x["ms"] for x in again]])
                 continue
         shape = "nesting" if "content=<" in e["desc"] and ("<blockquote><blockquote>" in e["desc"] or "<ul><li><ul>" in e["desc"] or "<h6><h6>" in e["desc"] or "<h1><h1>" in e["desc"]) else "other"
